@@ -24,7 +24,7 @@ import (
 	"github.com/flamego/flamego/verifharness/internal/rt"
 )
 
-const rule = "case = options (Charset, JSONIndent, XMLIndent; or none) x Renderer placed as application middleware, group handler or route handler x 1..3 later handlers of which one renders x a render call: JSON of a randomly nested value (maps, slices, strings with <>&, numbers, booleans, null) or of a tagged struct, XML of a struct with attributes, nested, optional and repeated elements, Binary of arbitrary bytes, PlainText of arbitrary text (payloads now and then 0.5..70 KB), with a status in 100..999, for GET / POST / HEAD; optionally the rendering handler first serves a nested request through the same application (which renders something else) before rendering its own response, optionally a middleware in front or the handler itself has already put some other Content-Type on the response. " +
+const rule = "case = options (Charset, JSONIndent, XMLIndent; or none) x Renderer placed as application middleware, group handler or route handler x 1..3 later handlers of which one renders x a render call: JSON of a randomly nested value (maps, slices, strings with <>&, numbers, booleans, null) or of a tagged struct, XML of a struct with attributes, nested, optional and repeated elements, or of a value whose encoding is empty (empty / nil slice, nil pointer), Binary of arbitrary bytes, PlainText of arbitrary text (payloads now and then 0.5..70 KB), with a status in 100..999, for GET / POST / HEAD; optionally the rendering handler first serves a nested request through the same application (which renders something else) before rendering its own response, optionally a middleware in front or the handler itself has already put some other Content-Type on the response. " +
 	"Oracle: the spy writer got exactly the given status once and before the body; Content-Type is the documented media type with the configured (default utf-8) charset; Binary / PlainText bodies are verbatim; the JSON body is valid JSON laid out with the configured indentation and json.Unmarshal of it is DeepEqual to the value; the XML body decodes into an equal struct and is indented iff an indentation is configured; every handler after the middleware receives a Render. " +
 	"non-trivial = a non-200 status, a non-default option, a value nested >= 2 deep, a nested request, a Content-Type set before the render call, or a HEAD request; distinct by case text"
 
@@ -66,6 +66,9 @@ type Case struct {
 	// call: "" nobody, "first" a middleware in front of everything, "handler"
 	// the rendering handler itself.
 	PreCT string `json:"content_type_set_before,omitempty"`
+	// Empty (kind xmlempty): an encodable value whose XML encoding is empty:
+	// "slice" = []XAddr{}, "nilslice" = []XAddr(nil), "nilptr" = (*XPerson)(nil).
+	Empty string `json:"empty_value,omitempty"`
 }
 
 func (c Case) value() interface{} {
@@ -81,6 +84,14 @@ func (c Case) value() interface{} {
 		p := *c.Person
 		p.XMLName = xml.Name{Local: "person"}
 		return &p
+	case "xmlempty":
+		switch c.Empty {
+		case "slice":
+			return []XAddr{}
+		case "nilslice":
+			return []XAddr(nil)
+		}
+		return (*XPerson)(nil)
 	}
 	return nil
 }
@@ -129,7 +140,7 @@ func checkCase(c Case) (out evid.Outcome) {
 			switch c.Kind {
 			case "json", "jsonstruct":
 				r.JSON(c.Status, v)
-			case "xml":
+			case "xml", "xmlempty":
 				r.XML(c.Status, v)
 			case "binary":
 				r.Binary(c.Status, []byte(c.raw()))
@@ -202,6 +213,14 @@ func checkCase(c Case) (out evid.Outcome) {
 			panic(err)
 		}
 		wantBody = b
+	case "xmlempty":
+		// the standard encoder writes nothing for these values (and reports no
+		// error): the status and the content type are still due
+		wantCT = "text/xml; charset=" + charset
+		b, err := xml.Marshal(v)
+		if err != nil || len(b) != 0 {
+			panic(fmt.Sprintf("harness: %v %q", err, b))
+		}
 	case "binary":
 		wantCT = "application/octet-stream"
 		wantBody = []byte(c.raw())
@@ -419,7 +438,7 @@ func genCase(t *rapid.T) Case {
 	c := Case{
 		At:     []string{"use", "group", "route"}[rapid.IntRange(0, 2).Draw(t, "at")],
 		After:  rapid.IntRange(1, 3).Draw(t, "after"),
-		Kind:   []string{"json", "json", "jsonstruct", "xml", "xml", "binary", "text"}[rapid.IntRange(0, 6).Draw(t, "kind")],
+		Kind:   []string{"json", "json", "jsonstruct", "xml", "xml", "binary", "text", "xmlempty"}[rapid.IntRange(0, 7).Draw(t, "kind")],
 		Status: []int{200, 200, 201, 204, 304, 400, 404, 418, 500, 503, 100, 103, 999}[rapid.IntRange(0, 12).Draw(t, "status")],
 		Method: []string{"GET", "GET", "POST", "HEAD"}[rapid.IntRange(0, 3).Draw(t, "method")],
 		Nested: rapid.IntRange(0, 4).Draw(t, "nested") == 0,
@@ -443,6 +462,8 @@ func genCase(t *rapid.T) Case {
 			panic(err)
 		}
 		c.JSON = raw
+	case "xmlempty":
+		c.Empty = []string{"slice", "nilslice", "nilptr"}[rapid.IntRange(0, 2).Draw(t, "emptyk")]
 	case "jsonstruct", "xml":
 		c.Person = genPerson(t)
 	case "binary":
